@@ -160,8 +160,34 @@ def rule_MP3(rep, prog):
         rep.require(rid, not bad and bool(tests), c.loc, fn.name, "sema4-wait-returns-on-failure",
                     "_dispatch_sema4_wait can return although sem_wait did not succeed (e.g. interrupted by a signal): a blocked dispatch_semaphore_wait "
                     "would report success without a signal", sample={"fn": fn.name, "paths": len(res)})
+    # ... and it goes round again ONLY after a failed call (errno is not cleared by a successful sem_wait: a stale EINTR must not trigger a second wait
+    # that swallows the next signal)
+    for c in sw:
+        tests = ret_tests(fn, c)
+        again = [r for r in paths.walk(fn, c, lambda i: i is c) if r[0] in ("hit", "loop")]
+        # the walk cuts back edges: look at loop re-entries that lead to the call's block as well
+        bad = []
+        for kind, inst, cx, path in again:
+            if kind == "hit" or (kind == "loop" and inst.block is c.block or fn.inst_reaches(inst, c)):
+                if failed(cx, tests) is not True:
+                    bad.append(path)
+        rep.require(rid, not bad and bool(tests), c.loc, fn.name, "sema4-wait-retries-after-success",
+                    "_dispatch_sema4_wait can call sem_wait again on a path where the previous call was not established to have failed (ret == -1), e.g. because "
+                    "errno still holds EINTR from an earlier system call: the waiter consumes its wake-up, waits again and swallows the next signal as well "
+                    "(path %s)" % (bad[0] if bad else None), sample={"fn": fn.name, "retry_paths": len(again)})
     fn = prog.fn("_dispatch_sema4_timedwait")
     rep.saw(fn)
+    # the absolute deadline handed to the kernel keeps its full width: seconds = nsec / NSEC_PER_SEC as a 64-bit value
+    for fld, op_ in (("tv_sec", "udiv"), ("tv_nsec", "urem")):
+        sts = [st for st in fn.all_insts() if st.op == "store" and fld in prog.fields(st)]
+        okw = bool(sts)
+        for st in sts:
+            v = fn.inst(st.ops[0])
+            okw = okw and v is not None and v.op == op_ and v.d.get("ty") == "i64"
+        rep.require(rid, okw, sts[0].loc if sts else fn.file, fn.name, "deadline-truncated:%s" % fld,
+                    "_dispatch_sema4_timedwait does not store %s as the full 64-bit %s of the nanosecond deadline (a narrowing cast in between): a deadline after "
+                    "2038 becomes negative / wraps into the past and a long timed dispatch_semaphore_wait returns non-zero at once" % (fld, "quotient" if op_ == "udiv" else "remainder"),
+                    sample={"field": fld})
     sw = calls_named(fn, "sem_timedwait")
     if not sw:
         rep.unknown(rid, "sem_timedwait not called in _dispatch_sema4_timedwait")
